@@ -36,7 +36,7 @@ var propDefs = map[string]PropDef{
 	"C14": {Classes: []string{"POST", "INV", "PRE", "LEMMA"}, Level: "proof"},
 	"C15": {Classes: []string{"POST", "INV", "PRE", "TERM", "LEMMA"}, Level: "proof"},
 	"C16": {Classes: []string{"POST", "INV", "PRE", "LEMMA"}, Level: "proof"},
-	"C17": {Classes: []string{"LOCK", "PRE"}, Level: "proof"},
+	"C17": {Classes: []string{"LOCK"}, Level: "proof"},
 	"C18": {Classes: []string{"FRAME", "POST", "PRE", "OWN", "LEMMA"}, Level: "proof"},
 	"C19": {Classes: []string{"SAFE", "POST", "PRE", "TRACE", "LEMMA"}, Level: "proof"},
 	"C20": {Classes: []string{"TRACE", "POST", "PRE", "LEMMA"}, Level: "proof"},
